@@ -42,3 +42,167 @@ PROPS["C16"] = dict(
     outside=["arrays longer than 1 / nested arrays (symbolic execution of the recursive Value glue does not terminate within budget)",
              "strings longer than 2 bytes, non-ASCII", "SipHash (RandomState) itself: equal byte streams are shown instead, which implies equal hashes for every Hasher"],
 )
+
+# ------------------------------------------------------------------------------------------- C03
+EX = "execution::verif_kani"
+_EVAL_STUBS = ["regex::Regex::new -> Err (regex engine is environment; Ok path of regexp_matches outside the claim)",
+               "chrono::Local::now -> arbitrary instant", "<Local as TimeZone>::offset_from_local_datetime -> arbitrary None|Single|Ambiguous",
+               "<Local as TimeZone>::offset_from_utc_datetime -> arbitrary offset", "alloc::fmt::format -> empty string (error texts are not the subject)"]
+
+
+def _names(prefix, items):
+    return [prefix + i for i in items]
+
+
+_c03_quick = set(_names("c03_arith_", ["add_int_int", "sub_int_int", "add_float_float", "null_int", "int_null", "int_float", "bool_bool"]) +
+                 _names("c03_cmp_", ["int_null_gt_le"]) +
+                 _names("c03_is_", ["null_null", "int_null"]) +
+                 _names("c03_bool_", ["bool_bool", "bool_null"]) +
+                 ["c03_unary_neg_int", "c03_unary_bool", "c03_unary_null"] +
+                 _names("c03_in_", ["int_int", "null_int", "int_null"]) +
+                 ["c03_fn_abs_int"])
+
+_c03_all = (_names("c03_arith_", ["add_int_int", "sub_int_int", "mul_int_int", "div_int_int", "add_float_float", "sub_float_float", "mul_float_float", "div_float_float",
+                                  "null_null", "null_int", "int_null", "null_float", "float_null", "null_string", "bool_null", "null_timestamp", "interval_null",
+                                  "int_float", "float_int", "int_bool", "bool_bool", "string_string", "string_int", "int_string", "float_bool", "int_interval", "timestamp_int"]) +
+            _names("c03_cmp_", ['int_int_eq_ne', 'int_int_gt_ge', 'int_int_lt_le', 'float_float_eq_ne', 'float_float_gt_ge', 'float_float_lt_le', 'bool_bool_eq_lt', 'string1_string1_eq_lt', 'string1_string1_ne_ge', 'string0_string1_gt_le', 'timestamp_timestamp_eq_lt', 'interval_interval_ne_gt', 'null_null_eq_ne', 'null_int_eq_ne', 'null_int_lt_ge', 'int_null_eq_ne', 'int_null_gt_le', 'float_null_ne_ge', 'null_string_ne_lt', 'bool_null_ne_gt', 'timestamp_null_ne_ge', 'int_float_gt_lt', 'float_int_gt_eq', 'int_bool_eq_lt']) +
+            _names("c03_is_", ["null_null", "int_null", "null_int", "float_null", "string_null", "bool_null", "timestamp_null", "interval_null", "int_int", "bool_bool", "string_string"]) +
+            _names("c03_bool_", ["bool_bool", "bool_null", "null_bool", "null_null", "int_bool", "bool_string"]) +
+            ["c03_unary_neg_int"] + _names("c03_unary_", ["null", "float", "bool", "string", "int", "interval"]) +
+            _names("c03_in_", ["int_int", "null_int", "int_null", "null_null", "float_float", "string_string", "bool_bool"]) +
+            _names("c03_fn_", ["abs_int", "abs_other", "wrong_arity_or_type"]) +
+            ["c03_cast_interval"])
+
+_C03_COST = {"c03_cmp_int_null_gt_le": 400, "c03_arith_div_int_int": 400, "c03_arith_mul_int_int": 400, "c03_arith_add_float_float": 160, "c03_arith_sub_float_float": 160,
+             "c03_arith_mul_float_float": 300, "c03_arith_div_float_float": 400, "c03_fn_abs_int": 120}
+
+PROPS["C03"] = dict(
+    harnesses=[H(n, "execution", EX, shape=n[4:].replace("_", " "), tier="quick" if n in _c03_quick else "thorough", timeout=900, cost=_C03_COST.get(n, 60)) for n in _c03_all],
+    functions=["ExpressionExecutionEngine::evaluate (src/execution/expression_execution.rs: Compare, NullableCompare, Arithmetic, UnaryArithmetic, BooleanOperation, In, Case, ArrayElementAccess, TypeConversion, FunctionCall abs/greatest/least/pow/array_length)",
+               "Value::map_same_type / Value::map (src/model.rs)", "derived Value ordering as used by Compare"],
+    bounds={"operands": "all i64 / all f64 bit patterns / bool / ASCII strings of length <= 2 / instants |t| < 2^40 s any offset / intervals < 2^40 s",
+            "division and multiplication": "divisor / multiplier restricted to -16..=16 (64-bit divider circuits do not finish); dividend / multiplicand full range",
+            "operators": "symbolic within each family (4 arithmetic, 6 comparison, IS/IS NOT, AND/OR, IN/NOT IN)",
+            "lists": "IN lists and CASE with exactly 1 entry, arrays of length 0..1, strings of length 0..1, functions of one argument (every loop of the evaluator may run once: unwind 2; unwind 3 does not conclude in 15 min)",
+            "nesting": "one operator over arbitrary operand values"},
+    stubs=_EVAL_STUBS,
+    assumptions=["operand values reach evaluate through a harness ColumnProvider keyed by scope (column-name binding through hash maps is outside the claim)",
+                 "each operator is checked over arbitrary operand values, which is what deeper nesting can produce; error propagation through >1 level is not unrolled"],
+    outside=["column-name binding (HashMap providers), SELECT * expansion and projection naming (C03's row-level clauses: see select-engine harnesses when present)",
+             "regexp_matches, upper/lower, array_unique (BTreeSet), sqrt/pow on REAL (CBMC's float transcendental models are not bit-precise), EXTRACT / date_trunc (chrono calendar code)",
+             "timestamp <-> string coercion in comparisons (chrono's format parser)", "functions of two or more arguments (greatest, least, pow, array_cat/append/prepend, make_timestamp): the argument loop needs a second iteration",
+             "IN lists with two or more entries, strings longer than 1 byte",
+             "CASE, array subscripts, array_length, casts other than INTERVAL::int and timestamp comparisons: their harnesses (kept in /verif/kani/execution.rs: c03_case_*, c03_subscript_*, c03_cast_identity_and_mismatch, c03_cmp_timestamp_*) exhaust 14 GB / 15 min in CBMC and are not registered"],
+)
+
+# ------------------------------------------------------------------------------------- C04 / C15
+AG = "execution::aggregate_execution::verif_kani"
+_fold = [("c04_fold_sum_int", "SUM over 3 INT-or-NULL values", "quick"), ("c04_fold_sum_float", "SUM over 3 REAL-or-NULL values", "thorough"),
+         ("c04_fold_avg_int", "AVG over 3 INT-or-NULL values", "quick"), ("c04_fold_avg_float", "AVG over 3 REAL-or-NULL values", "thorough"),
+         ("c04_fold_variance_int", "VARIANCE over 3 INT-or-NULL values", "quick"), ("c04_fold_variance_float", "VARIANCE over 3 REAL-or-NULL values", "thorough"),
+         ("c04_fold_bool_and", "BOOL_AND over 3 BOOL-or-NULL values", "quick"), ("c04_fold_bool_or", "BOOL_OR over 3 BOOL-or-NULL values", "quick"),
+         ("c04_fold_percentile_n1", "PERCENTILE(p) over 1 INT", "quick"), ("c04_fold_percentile_n2", "PERCENTILE(p) over 2 INTs", "quick"),
+         ("c04_fold_percentile_n3", "PERCENTILE(p) over 3 INTs + permutation", "quick"), ("c04_fold_percentile_all_null", "PERCENTILE over an all-NULL group", "quick")]
+_FOLD_FUNCS = ["GroupAggregator::default / update / update_value / is_null (src/execution/aggregate_execution.rs)",
+               "Value::modify_same_type_numeric_nullable, Value::map_numeric, Value::default_value (src/model.rs)", "slice sort of Vec<Value> (PERCENTILE)"]
+_FOLD_BOUNDS = {"group": "3 rows, each NULL or a value (NULL pattern symbolic)", "INT / REAL values": "integers with |x| <= 2^20 (every sum and square exact in i64 and f64); overflow harnesses: full i64",
+                "percentile p": "every f64 in [0, 1]", "orders": "all 6 permutations of the 3 rows (symbolic permutation index)", "unwind": "5-6"}
+_FOLD_ASSUME = ["driver protocol copied from update_aggregate / execute_result: aggregator created lazily from the first arriving value, update() only for non-NULL values, NULL sets the cell only while is_null(), update_value() before a table is shown",
+                "the group table around the fold (BTreeMap<GroupKey, HashMap<usize,_>>, column-wise result assembly, HAVING) is outside the claim: symbolic execution of the engine does not conclude for two rows (DESIGN.md probe 14)"]
+_FOLD_OUT = ["one row per group / group order / no cell from another group (group table)", "COUNT, COUNT(DISTINCT), MIN, MAX, ARRAY_AGG, STRING_AGG (folded inline in the engine or through HashSet)",
+             "STDDEV's final sqrt (VARIANCE is checked; the flag only selects sqrt)", "groups of more than 3 rows", "HAVING, transform wrappers"]
+PROPS["C04"] = dict(
+    harnesses=[H(n, "aggregate_execution", AG, shape=sh, tier=t, timeout=900, cost=120) for (n, sh, t) in _fold],
+    functions=_FOLD_FUNCS, bounds=_FOLD_BOUNDS, stubs=["alloc::fmt::format -> empty string"], assumptions=_FOLD_ASSUME, outside=_FOLD_OUT)
+PROPS["C15"] = dict(
+    harnesses=[H(n, "aggregate_execution", AG, shape=sh + " (all arrival orders)", tier=t, timeout=900, cost=120) for (n, sh, t) in _fold
+               if n not in ("c04_fold_percentile_n1", "c04_fold_percentile_n2", "c04_fold_percentile_all_null")],
+    functions=_FOLD_FUNCS, bounds=_FOLD_BOUNDS, stubs=["alloc::fmt::format -> empty string"], assumptions=_FOLD_ASSUME,
+    outside=_FOLD_OUT + ["split / concatenation law and the union of group sets (group table)", "MIN / MAX / COUNT (inline in update_aggregate)"])
+
+# ------------------------------------------------------------------------------------- C06 / C07
+EE = "execution::execution_engine::verif_kani"
+_ENGINE_STUBS = ["Tables::get -> a fixed table definition", "TableDefinition::extract -> admitted row (one non-NULL column) or non-admitted row (0..2 NULL columns), chosen by the harness",
+                 "SelectExecutionEngine::execute / AggregateExecutionEngine::execute / execute_update / execute_result / join::execute_join -> contract stubs: record that the engine was reached, return 0..3 rows (each NULL-only or not)",
+                 "ExecutionEngine::create_columns_mapping, HashMapColumnProvider::create_table_scope -> empty maps (and record the call)", "std::hash::RandomState::new -> fixed keys", "regex::Regex::new -> Err", "alloc::fmt::format -> empty string"]
+PROPS["C06"] = dict(
+    harnesses=[H(n, "execution_engine", EE, shape=sh, timeout=600, env_stubbed=True, cost=60) for (n, sh) in [
+        ("c06_noise_select", "SELECT, no join"), ("c06_noise_select_join", "SELECT with joined table"),
+        ("c06_noise_aggregate_follow", "aggregate, update+result (follow mode)"), ("c06_noise_aggregate_follow_join", "aggregate follow mode with joined table"),
+        ("c06_noise_aggregate_batch", "aggregate, update-only (batch mode)"), ("c06_noise_aggregate_batch_join", "aggregate batch mode with joined table"),
+        ("c06_admitted_reaches_engine", "liveness of the stubs: an admitted line reaches the select engine")]],
+    functions=["ExecutionEngine::execute, execute_select, execute_aggregate, execute_aggregate_update, update_limit (src/execution/execution_engine.rs)", "Row::any_result (src/data_model.rs)"],
+    bounds={"non-admitted row": "0..1 columns, all NULL", "engine state": "arbitrary LIMIT counter (u8), LIMIT absent or any u8, DISTINCT / OUTER flags symbolic", "step": "one line from an arbitrary state (inductive step: a line without trace leaves every later step's pre-state unchanged)"},
+    stubs=_ENGINE_STUBS,
+    assumptions=["one inductive step covers insertion/deletion of noise lines at any position: stated as an argument, not separately checked",
+                 "what extract() returns for concrete noise text (regex matching) is environment; the admission rule itself is decided by the c06_admission_* harnesses when registered"],
+    outside=["FileExecutor statistics counters, follow mode's screen clearing", "the joined-file loader (same execute path through SELECT *)"])
+PROPS["C07"] = dict(
+    harnesses=[H(n, "execution_engine", EE, shape=sh, timeout=600, env_stubbed=True, cost=60) for (n, sh) in [
+        ("c07_limit_step_select", "SELECT LIMIT n>=1, <=1 row per line, rows with a non-NULL column"),
+        ("c07_limit_step_select_nullonly", "SELECT LIMIT n>=1, rows may consist of NULLs only"),
+        ("c07_limit_step_select_zero", "SELECT LIMIT n>=0 (includes LIMIT 0)"),
+        ("c07_limit_step_join", "SELECT .. JOIN LIMIT n>=1, <=1 row per line"),
+        ("c07_no_limit_step", "no LIMIT"), ("c07_aggregate_result_truncated", "batch aggregate: final table cut to n rows")]],
+    functions=["ExecutionEngine::execute (Select arm, aggregate_result arm), update_limit (src/execution/execution_engine.rs)"],
+    bounds={"n": "any u8", "rows handed out before": "any count allowed by the protocol (< n, or 0 for n = 0)", "rows per line": "0..1, each NULL-only or not (join fan-out of 2+ rows per line needs unwind 3+, which does not conclude: outside the bound); final aggregate table: 0..2 rows", "step": "one line from an arbitrary reachable LIMIT state (inductive)"},
+    stubs=_ENGINE_STUBS,
+    assumptions=["the executor offers another line only while reached_limit has not been reported (FileExecutor / FollowFileExecutor loops: see C12 when registered)",
+                 "the engines below the dispatcher return an arbitrary 0..3 rows per line (contract stub)"],
+    outside=["'consumes no input beyond the n-th row' at the file level: FileExecutor's break leaves only the current file's loop (multi-file runs) and LIMIT 0 still reads one line",
+             "aggregate statements in follow mode (table refreshed per line)", "DISTINCT + LIMIT interplay inside SelectExecutionEngine (stubbed here)"])
+
+# ------------------------------------------------------------------------------------------- C08
+PROPS["C08"] = dict(
+    harnesses=[H("c08_distinct_one_column", "execution", EX, shape="3 tuples x 1 column (NULL or INT 0..2)", timeout=900, cost=200),
+               H("c08_distinct_two_columns", "execution", EX, shape="3 tuples x 2 columns (NULL or INT 0..2)", timeout=900, cost=400)],
+    functions=["DistinctValues::new / add (src/execution/helpers.rs)", "derived Value / Vec<Value> equality and clone as used by the set"],
+    bounds={"tuples": "3 per run, 1 or 2 columns", "column values": "NULL or INT 0..2 (symbolic)", "set": "Vec-backed shim of FnvHashSet: membership by ==; that equal tuples hash equally under FnvHasher is decided in C16 (c16_tuple_int_float, scalar pair laws)"},
+    stubs=["fnv::FnvHashSet -> /verif/kani/shim.rs HashSet (contract: insert/contains by ==)", "alloc::fmt::format -> empty string"],
+    assumptions=["hashbrown's correctness given Eq/Hash-consistent keys (trusted base)"],
+    outside=["the select path around the set (SelectExecutionEngine::execute evaluates projections through the evaluator; with two projections its loops need unwind 3, which does not conclude) - the call `if distinct && !add(..) { return None }` is read, not decided",
+             "the aggregate path (DISTINCT consulted only inside `if let Some(having)`, its memory surviving refreshes): engine level, not reachable", "tuples with REAL / TEXT columns (C16 decides their Eq/Hash laws)"])
+
+# ------------------------------------------------------------------------------------------- C13
+PA = "parsing::parser::verif_kani"
+PROPS["C13"] = dict(
+    harnesses=[H(n, "parser", PA, shape=sh, timeout=900, cost=c) for (n, sh, c) in [
+        ("c13_prec_postfix_mul", "every of :: [ . vs every of * /", 60), ("c13_prec_mul_add", "* / vs + -", 60), ("c13_prec_add_cmp", "+ - vs the 10 comparison tokens", 60),
+        ("c13_prec_cmp_and", "comparison tokens vs AND", 60), ("c13_prec_and_or", "AND vs OR", 60), ("c13_prec_mul_cmp", "* / vs comparison tokens", 60),
+        ("c13_prec_add_and", "+ - vs AND", 60), ("c13_prec_cmp_or", "comparison tokens vs OR", 60), ("c13_prec_same_level", "* = / and + = -", 60),
+        ("c13_climb_two_arith", "a o1 b o2 c, o1 o2 symbolic in + - * /", 300), ("c13_climb_low_high_low", "a o1 b o2 c o3 d, o1 o3 in + -, o2 in * /", 400)]],
+    functions=["Parser::get_token_precedence, BinaryOperators::new (src/parsing/parser.rs, operator.rs)", "Parser::parse_expression -> parse_unary_operator / parse_binary_operator_rhs / parse_primary_expression on token sequences"],
+    bounds={"precedence levels": "all pairs of operator tokens of two different classes (class membership symbolic)", "chains": "2 and 3 binary arithmetic operators over single-letter identifiers; token sequence <= 8 tokens"},
+    stubs=["std HashMap/HashSet of parsing/operator.rs -> /verif/kani/shim.rs", "alloc::fmt::format -> empty string"],
+    assumptions=["operators inside one class (e.g. = vs <) are not ordered by the check: the statement names them as one level"],
+    outside=["the tokenizer (=- and -- fusion), NOT / unary minus placement, IN with a one-element list, parenthesised operands: token-level harnesses for them are not built",
+             "chains mixing comparison / AND / OR / cast / subscript operators in the climbing harness"])
+
+# ------------------------------------------------------------------------------------- C01 / C02
+DM = "data_model::verif_kani"
+_DM_STUBS = ["ParsingInput::new -> the environment's answer: pattern matched or not, 1..3 split fields with symbolic bytes, or a constructed JSON document (regex engine and serde_json parser are environment)",
+             "std HashMap of data_model.rs -> /verif/kani/shim.rs", "regex::Regex::new -> Err (never reached: tables have no patterns)", "chrono Local time-zone lookups -> arbitrary answers", "alloc::fmt::format -> empty string"]
+PROPS["C01"] = dict(
+    harnesses=[H(n, "data_model", DM, shape=sh, timeout=900, cost=c) for (n, sh, c) in [
+        ("c01_split_int_default", "INT column on split field 1, DEFAULT present or not, pattern/field present or not", 300),
+        ("c01_split_boolean", "BOOLEAN column on split field 1", 200),
+        ("c01_split_two_columns", "two INT columns on fields 1 and 2 in either order", 400),
+        ("c01_split_array", "INT[] column from fields 1 and 2", 400)]],
+    functions=["TableDefinition::extract, ColumnParsing::extract, ColumnParsing::extract_using_regex (Split arm), ColumnDefinition::default_value (src/data_model.rs)", "ValueType::parse INT arm (src/model.rs)"],
+    bounds={"fields": "<= 2 bytes over {0-9, -, +, space, x}", "split result": "1..3 entries", "columns": "1..2 per table"},
+    stubs=_DM_STUBS,
+    assumptions=["the Captures arm of extract_using_regex is a textual twin of the Split arm and is not executed (regex::Captures has no public constructor)"],
+    outside=["the regex engine (leftmost match, group numbering, split)", "REAL / TIMESTAMP / INTERVAL literal parsing, TRIM, timestamp assembly from parts (see C09 for create_timestamp)", "CREATE TABLE parsing", "fields longer than 2 bytes"])
+PROPS["C02"] = dict(
+    harnesses=[H(n, "data_model", DM, shape=sh, timeout=900, cost=c) for (n, sh, c) in [
+        ("c02_json_index_int", "{[i]} => INT on [leaf, \"\"], leaf any JSON scalar", 400), ("c02_json_index_real", "{[i]} => REAL", 400),
+        ("c02_json_index_boolean", "{[i]} => BOOLEAN", 300), ("c02_json_index_text", "{[i]} => TEXT", 300),
+        ("c02_json_nested_path", "{[i][j]} => INT on [[leaf, true], 5] via JsonAccess::from_linear", 400)]],
+    functions=["JsonAccess::get_value (Array steps, recursion), JsonAccess::from_linear, ColumnParsing::extract Json branch (src/data_model.rs)", "ValueType::convert_from_json (src/model.rs)"],
+    bounds={"document": "JSON arrays of depth <= 2, <= 2 elements; leaf = null | bool | any i64 | any u64 | any finite f64 | string", "index": "0..2 per step", "DEFAULT": "present or not"},
+    stubs=_DM_STUBS,
+    assumptions=[],
+    outside=["serde_json::from_str (the JSON parser: duplicate keys, numbers beyond f64, invalid JSON)", "object field steps: serde_json's Map is an IndexMap over hashbrown, which cannot be shimmed",
+             "CONVERT (string -> typed literal parsing)", "independence from regex columns of the same table"])
+PROPS["C06"]["harnesses"].append(H("c06_admission_two_columns", "data_model", DM, shape="admission rule: two INT columns, nullable/NOT NULL/DEFAULT symbolic", timeout=900, cost=400))
+PROPS["C06"]["functions"].append("TableDefinition::extract (NOT NULL cut), Row::any_result (src/data_model.rs)")
